@@ -13,6 +13,12 @@ type T2Storage = Vector3<f64>;
 pub use points_to_curve::points_to_curve;
 pub use rc_params2::RcParams2;
 
+/// Verification hooks (feature `verif` only): exposes the private 2D Jacobian for external checks.
+#[cfg(feature = "verif")]
+pub mod verif_hooks {
+    pub use super::jacobian::*;
+}
+
 /// Produces a 2D transformation from 3 parameters.
 pub fn iso2_from_param(p: &T2Storage) -> Iso2 {
     Iso2::translation(p.x, p.y) * Iso2::rotation(p.z)
